@@ -5,7 +5,8 @@
     composition over arbitrary nested definitions (structs, sequences, tagged members) is evaluated against the
     implementation and against an independent reference interpreter, not proved: C18 is a partial proof. *)
 From Coq Require Import Ascii String List Bool NArith ZArith.
-From A2L Require Import Text.Escape Text.IntText Lex.Tokenizer Gram.Spec A2ml.Types Gram.PState Gram.Parser Proofs.IfdataProofs.
+From A2L Require Import Text.Escape Text.IntText Lex.Tokenizer Gram.Spec A2ml.Types Gram.PState Gram.Parser Lib.IfdataCleanup
+     Gen.SpecShipped Proofs.IfdataProofs Proofs.IfdataCleanupProofs.
 Import ListNotations.
 
 (* valid = true only when a specification (built-in first, then the A2ML block of the file) accepted the content, and the
@@ -59,3 +60,23 @@ Print Assumptions C18_enum_accepts_only_members.
 Theorem C18_string_value_survives : forall str, unescape (strip_quotes (dq :: escape str ++ [dq])) = str.
 Proof. exact string_value_survives. Qed.
 Print Assumptions C18_string_value_survives.
+
+(* ifdata_cleanup(): afterwards no block with ifdata_valid = false is left anywhere in the file; what is dropped are such
+   blocks and nothing else; a file without them is unchanged; and the grammar allows IF_DATA only under the eleven
+   element types that remove_unknown_ifdata visits (closed obligation on the regenerated grammar) *)
+Theorem C18_cleanup_removes_every_invalid_block : forall fuel ty lay fields kids cms,
+  depth_le fuel (VNode ty lay fields kids cms) -> ~ invalid_in (cleanup_value fuel (VNode ty lay fields kids cms)).
+Proof. exact cleanup_removes_every_invalid_block. Qed.
+Print Assumptions C18_cleanup_removes_every_invalid_block.
+Theorem C18_cleanup_drops_only_invalid_blocks : forall g k, In k g -> ~ In k (filter keep_ifdata g) ->
+  exists lay items, k = VIfData lay items false.
+Proof. exact cleanup_drops_only_invalid_blocks. Qed.
+Print Assumptions C18_cleanup_drops_only_invalid_blocks.
+Theorem C18_cleanup_without_invalid_blocks_is_identity : forall fuel v, ~ invalid_in v -> cleanup_value fuel v = v.
+Proof. exact cleanup_without_invalid_blocks_is_identity. Qed.
+Print Assumptions C18_cleanup_without_invalid_blocks_is_identity.
+Example C18_places_of_if_data_in_the_grammar :
+  ifdata_parents spec_shipped =
+  ["AxisPts"; "Blob"; "Characteristic"; "Frame"; "Function"; "Group"; "Instance"; "Measurement"; "MemoryLayout";
+   "MemorySegment"; "Module"]%string.
+Proof. exact ifdata_parents_of_the_shipped_grammar. Qed.
